@@ -79,6 +79,7 @@ type Config struct {
 	Queue      string  `json:"queue"`   // linked | chan (chan only in the free-running pass)
 	ShortReads bool    `json:"short_reads"`
 	Ping       bool    `json:"ping"`
+	Batch      bool    `json:"batch"` // register all handlers with one AddGeneric/AddListener call
 }
 
 var (
@@ -298,6 +299,7 @@ func session(cfg Config, obs *Obs) {
 	client := bot.NewClient()
 	client.Auth.Name = cfg.Name
 	calls := 0
+	var batchGen, batchSpec []bot.PacketHandler
 	for i, h := range cfg.Handlers {
 		i, h := i, h
 		ph := bot.PacketHandler{ID: packetid.ClientboundPacketID(h.ID), Priority: h.Priority, F: func(p pk.Packet) error {
@@ -311,11 +313,23 @@ func session(cfg Config, obs *Obs) {
 			}
 			return nil
 		}}
+		if cfg.Batch {
+			if h.Generic {
+				batchGen = append(batchGen, ph)
+			} else {
+				batchSpec = append(batchSpec, ph)
+			}
+			continue
+		}
 		if h.Generic {
 			client.Events.AddGeneric(ph)
 		} else {
 			client.Events.AddListener(ph)
 		}
+	}
+	if cfg.Batch {
+		client.Events.AddGeneric(batchGen...)
+		client.Events.AddListener(batchSpec...)
 	}
 	opts := bot.JoinOptions{MCDialer: dialer{a}, NoPublicKey: true}
 	if cfg.Queue == "chan" {
@@ -568,6 +582,18 @@ func genConfig(c *engine.Chooser, family string) Config {
 			cfg.FailAt = pick(4) - 1
 		}
 		cfg.C2S = []Pkt{{3, 2, 5}}
+	case "dispatch-many":
+		// large handler groups with ties and several priorities (sorting algorithms change
+		// behaviour with the group size)
+		n := []int{5, 12, 13, 14, 17, 33}[pick(6)]
+		pattern := [][]int{{0}, {0, 1}, {-1, 0, 0, 1, 5}, {3, 2, 1}, {1, 2, 3}}[pick(5)]
+		generic := pick(2) == 0
+		for i := 0; i < n; i++ {
+			cfg.Handlers = append(cfg.Handlers, HSpec{generic, idX, pattern[i%len(pattern)]})
+		}
+		cfg.Batch = pick(2) == 1
+		cfg.S2C = []Pkt{{idX, 4, 1}, {idY, 3, 2}}
+		cfg.FailAt = []int{-1, n / 2}[pick(2)]
 	case "ping":
 		cfg.Ping = true
 		cfg.ShortReads = true
@@ -585,6 +611,7 @@ var families = []struct {
 	{"dispatch", 0, 1},
 	{"traffic-sched", 1, 2},
 	{"dispatch-sched", 1, 2},
+	{"dispatch-many", 0, 0},
 	{"ping", 3, 4},
 }
 
